@@ -29,6 +29,7 @@ import (
 	"github.com/AdguardTeam/dnsproxy/proxy"
 	"github.com/AdguardTeam/golibs/logutil/slogutil"
 	"github.com/AdguardTeam/golibs/netutil"
+	"github.com/ameshkov/dnscrypt/v2"
 	"github.com/miekg/dns"
 	"github.com/quic-go/quic-go"
 )
@@ -351,10 +352,37 @@ type c03Case struct {
 	Carrier string `json:"client_id_carrier,omitempty"`
 	Name    string `json:"qname"`
 	QType   string `json:"qtype"`
+	// DCPeer tells, for DNSCrypt, what the context's DNSCryptResponseWriter
+	// is: "nil", "udp" (a writer whose remote address is a *net.UDPAddr) or
+	// "tcp" (a *net.TCPAddr: dnsproxy uses one protocol value for DNSCrypt
+	// over UDP and over TCP).
+	DCPeer string `json:"dnscrypt_response_writer,omitempty"`
 
 	addr  netip.Addr
 	qtype uint16
 }
+
+// c03DCWriter is a dnscrypt.ResponseWriter that records what is written.
+type c03DCWriter struct {
+	remote net.Addr
+	mu     sync.Mutex
+	writes []string
+}
+
+func (w *c03DCWriter) LocalAddr() net.Addr {
+	return &net.UDPAddr{IP: net.IPv4(127, 0, 0, 1), Port: 5443}
+}
+func (w *c03DCWriter) RemoteAddr() net.Addr { return w.remote }
+
+func (w *c03DCWriter) WriteMsg(m *dns.Msg) error {
+	w.mu.Lock()
+	defer w.mu.Unlock()
+	w.writes = append(w.writes, dns.RcodeToString[m.Rcode])
+
+	return nil
+}
+
+var _ dnscrypt.ResponseWriter = (*c03DCWriter)(nil)
 
 // c03Context crafts the proxy.DNSContext of a case.
 func c03Context(c *c03Case, reqID uint64, msgID uint16) *proxy.DNSContext {
@@ -373,6 +401,14 @@ func c03Context(c *c03Case, reqID uint64, msgID uint16) *proxy.DNSContext {
 		srvName = c.ID + "." + c03SrvName
 	}
 	switch pctx.Proto {
+	case proxy.ProtoDNSCrypt:
+		ip, port := net.IP(c.addr.AsSlice()), int(pctx.Addr.Port())
+		switch c.DCPeer {
+		case "udp":
+			pctx.DNSCryptResponseWriter = &c03DCWriter{remote: &net.UDPAddr{IP: ip, Port: port, Zone: c.addr.Zone()}}
+		case "tcp":
+			pctx.DNSCryptResponseWriter = &c03DCWriter{remote: &net.TCPAddr{IP: ip, Port: port, Zone: c.addr.Zone()}}
+		}
 	case proxy.ProtoTLS:
 		pctx.Conn = c03TLSConn{name: srvName}
 	case proxy.ProtoQUIC:
@@ -403,9 +439,11 @@ type c03Observed struct {
 	Rule            string `json:"is_blocked_client_rule"`
 	// Kind: "nil" (go on), "drop" (an error dnsproxy answers with nothing),
 	// "respond" (a BeforeRequestError: dnsproxy writes its response).
-	Kind     string `json:"handle_before"`
-	Err      string `json:"handle_before_error,omitempty"`
-	Rcode    string `json:"response_rcode,omitempty"`
+	Kind  string `json:"handle_before"`
+	Err   string `json:"handle_before_error,omitempty"`
+	Rcode string `json:"response_rcode,omitempty"`
+	// DCWrites are the rcodes written to the DNSCrypt response writer stub.
+	DCWrites []string `json:"dnscrypt_writer_saw,omitempty"`
 	resp     *dns.Msg
 	resAfter *dns.Msg
 	panicked any
@@ -420,6 +458,11 @@ func c03Observe(s *Server, c *c03Case, idForAPI string, pctx *proxy.DNSContext) 
 	o.IsBlockedClient, o.Rule = s.IsBlockedClient(c.addr, idForAPI)
 	err := s.HandleBefore(s.dnsProxy, pctx)
 	o.resAfter = pctx.Res
+	if w, ok := pctx.DNSCryptResponseWriter.(*c03DCWriter); ok && w != nil {
+		w.mu.Lock()
+		o.DCWrites = append([]string{}, w.writes...)
+		w.mu.Unlock()
+	}
 	switch {
 	case err == nil:
 		o.Kind = "nil"
@@ -531,7 +574,8 @@ func TestVerifC03Decision(t *testing.T) {
 		min   int
 	}{{"want_refused_client", 300}, {"want_refused_name", 100}, {"want_admitted", 300},
 		{"allow_mode_admitted_by_clientid_only", 10}, {"allow_mode_admitted_by_address_only", 10},
-		{"allow_mode_disallowed_entry_ignored", 10}} {
+		{"allow_mode_disallowed_entry_ignored", 10}, {"dnscrypt_writer_nil:refused", 20},
+		{"dnscrypt_writer_udp:refused", 20}, {"dnscrypt_writer_tcp:refused", 20}} {
 		if n := rep.ClassCount(need.class); n < need.min {
 			rep.Inconcl(fmt.Sprintf("too few cases of class %s: %d", need.class, n))
 		}
@@ -596,6 +640,9 @@ func c03RunConf(rep *verifkit.Report, rng *rand.Rand, idx int, s *Server, l *c03
 		c.Proto = string(proto)
 		c.addr = c03GenAddr(rng, both)
 		c.Addr = c.addr.String()
+		if proto == proxy.ProtoDNSCrypt {
+			c.DCPeer = []string{"nil", "udp", "udp", "tcp", "tcp"}[rng.Intn(5)]
+		}
 		if proto == proxy.ProtoTLS || proto == proxy.ProtoHTTPS || proto == proxy.ProtoQUIC {
 			c.ID = c03GenID(rng, both)
 			if proto == proxy.ProtoHTTPS {
@@ -653,6 +700,9 @@ func c03RunConf(rep *verifkit.Report, rng *rand.Rand, idx int, s *Server, l *c03
 		if c.ID != "" {
 			rep.Class("clientid_via_" + c.Proto + "_" + c.Carrier)
 		}
+		if c.DCPeer != "" {
+			rep.Class("dnscrypt_writer_" + c.DCPeer)
+		}
 
 		if !cv.Specified {
 			for _, z := range cv.Zones {
@@ -680,6 +730,9 @@ func c03RunConf(rep *verifkit.Report, rng *rand.Rand, idx int, s *Server, l *c03
 		}
 		if refused {
 			rep.Class(c.Proto + ":refused")
+			if c.DCPeer != "" {
+				rep.Class("dnscrypt_writer_" + c.DCPeer + ":refused")
+			}
 			switch {
 			case cv.Specified && cv.Excluded:
 				rep.Class("want_refused_client")
@@ -736,9 +789,19 @@ func c03CheckShape(rep *verifkit.Report, c *c03Case, o c03Observed, reqMsgID uin
 	}
 	refusedShape := func() bool {
 		if silent {
+			on := c.Proto
+			if c.DCPeer != "" {
+				on += ":" + c.DCPeer + "-writer"
+			}
 			if o.Kind == "respond" {
-				rep.Violate("refused:reply-on-"+c.Proto, "a request that must not be served would be answered ("+o.Rcode+") over a transport that must stay silent",
+				rep.Violate("refused:reply-on-"+on, "a request that must not be served would be answered ("+o.Rcode+") over a transport that must stay silent",
 					witness("an error that is not a *proxy.BeforeRequestError (dnsproxy then writes nothing)"))
+
+				return false
+			}
+			if len(o.DCWrites) != 0 {
+				rep.Violate("refused:written-to-dnscrypt-writer:"+on, "a request that must get no reply at all had a message written to its DNSCrypt response writer",
+					witness("nothing written"))
 
 				return false
 			}
